@@ -203,6 +203,7 @@ def run_case(case, rec=None):
             stub.create_patch()
             t2 = real_tree.clone()
             for b in bound:
+                t2_before = t2.clone()
                 try:
                     H.apply_model(t2, b)
                     okm = True
@@ -213,6 +214,8 @@ def run_case(case, rec=None):
                     oks = True
                 except Exception as e:  # noqa: BLE001
                     oks, err = False, f"{type(e).__name__}: {e}"
+                if okm and not oks and H.marker_refused(b, err):
+                    t2, okm = t2_before, False  # the reserved marker value is refused on the stub as on the real record
                 if okm != oks:
                     raise Violation(f"C10:stub-op-parity:{b['op']}", f"{b}: on the stub {'succeeded' if oks else 'raised ' + err}",
                                     "succeeds" if okm else "fails")
@@ -303,7 +306,7 @@ def cases(max_ops):
 def run_shard(shard, tier, seed, rec):
     H.install_work_guard()
     i = shard["i"]
-    n = {"quick": 30, "thorough": 900}[tier]
+    n = {"quick": 90, "thorough": 900}[tier]
 
     def t(c):
         run_case(c, rec)
